@@ -29,7 +29,10 @@ ALPHA = [E.DRAIN, E.TURN, E.TIMER, E.FINISH, E.DISCONNECT, E.FORCE, E.CANCEL, E.
 ALPHA_Q = [E.DRAIN, E.TIMER, E.DISCONNECT, E.FORCE, E.CANCEL, E.CONNECT_OK, E.CONNECT_ERR, E.D_HELLO, E.D_CONNECT, E.D_GARBAGE,
            E.D_NOISEMARK, E.D_BADPAYLOAD, E.EOF, E.RESET, E.WRITEFAIL, E.REQUEST, E.D_DEVINFO, E.CANCEL_REQ, E.RESOLVE_ERR]
 ALPHA_FULL = ALPHA
-if shard_int("QA", 0):
+ALPHA_QR = ALPHA_Q + [E.D_MSG]  # quick alphabet of the raising-subscriber shards (needs the state message)
+if shard_int("QA", 0) == 2:
+    ALPHA = ALPHA_QR
+elif shard_int("QA", 0):
     ALPHA = ALPHA_Q
 NA = len(ALPHA)
 SH0 = shard_int("SH0", 0)
@@ -235,9 +238,10 @@ def shards(tier: str) -> list:
         for i in _enabled_first(st, nz, na, alpha):
             out.append({"fn": "h09_3", "env": {"STAGE": st, "SH0": i, "NOISE": nz, "NADDR": na, "QA": 1 if quick else 0}, "cond_timeout": 600 if quick else 1500, "path_timeout": 60,
                         "desc": f"stage {E.STAGE_NAMES[st]}{' (noise)' if nz else ''}{' (2 address groups)' if na > 1 else ''}, first event {E.NAMES[alpha[i]]}, then 2 symbolic events ({len(alpha)}-event alphabet); then time runs until every call ended"})
-    for i in _enabled_first(E.ST_CONNECTED, 0, 1, ALPHA_FULL):
-        out.append({"fn": "h09_3", "env": {"STAGE": E.ST_CONNECTED, "SH0": i, "NOISE": 0, "NADDR": 1, "QA": 0, "RAISE": 1}, "cond_timeout": 600 if quick else 1500, "path_timeout": 60,
-                    "desc": f"stage connected, the application's state subscriber raises (raw exception handed to connection_lost), first event {E.NAMES[ALPHA_FULL[i]]}, then 2 symbolic events (27-event alphabet)"})
+    ralpha = ALPHA_QR if quick else ALPHA_FULL
+    for i in _enabled_first(E.ST_CONNECTED, 0, 1, ralpha):
+        out.append({"fn": "h09_3", "env": {"STAGE": E.ST_CONNECTED, "SH0": i, "NOISE": 0, "NADDR": 1, "QA": 2 if quick else 0, "RAISE": 1}, "cond_timeout": 600 if quick else 1500, "path_timeout": 60,
+                    "desc": f"stage connected, the application's state subscriber raises (raw exception handed to connection_lost), first event {E.NAMES[ralpha[i]]}, then 2 symbolic events ({len(ralpha)}-event alphabet)"})
     if not quick:
         for st, nz, na in [(E.ST_CONNECTING, 0, 1), (E.ST_HELLO_SENT, 0, 1), (E.ST_CONNECTED, 0, 1), (E.ST_HELLO_SENT, 1, 1)]:
             for i, j in E.enabled_pairs(_mk(st, nz, na), ALPHA_Q):
